@@ -125,48 +125,6 @@ impl<const K: usize> AffTree<K> {
 //@end
 }
 
-pub open spec fn r_ok_leaf<const K: usize>(a: AArena<K>, i: usize) -> bool { a.dom().contains(i) && a[i].isleaf }
-pub open spec fn leaf_done<const K: usize>(a0: AArena<K>, a1: AArena<K>, i: usize, f: &AffFunc) -> bool {
-    a1[i].value.state == a0[i].value.state && a1[i].value.aff.ok() && a1[i].value.aff.mat.ncols() == a0[i].value.aff.mat.ncols() && a1[i].value.aff.mat.nrows() == f.mat.nrows()
-        && forall|x: V| x.len() == a0[i].value.aff.mat.ncols() ==> #[trigger] a1[i].value.aff.ap(x) =~= f.ap(a0[i].value.aff.ap(x))
-}
-
-// node `node` got its function replaced by `f` after it; nothing else changed
-pub open spec fn composed_at<const K: usize>(a0: AArena<K>, a1: AArena<K>, node: usize, f: &AffFunc) -> bool {
-    &&& same_shape(a0, a1) && a0.dom().contains(node)
-    &&& a1[node].value.state == a0[node].value.state
-    &&& a1[node].value.aff.ok() && a1[node].value.aff.mat.ncols() == a0[node].value.aff.mat.ncols() && a1[node].value.aff.mat.nrows() == f.mat.nrows()
-    &&& forall|x: V| x.len() == a0[node].value.aff.mat.ncols() ==> #[trigger] a1[node].value.aff.ap(x) =~= f.ap(a0[node].value.aff.ap(x))
-    &&& forall|i: usize| a0.dom().contains(i) && i != node ==> #[trigger] a1[i] == a0[i]
-}
-
-// effect of apply_func: every terminal composed with f, decisions untouched
-pub open spec fn all_leaves_composed<const K: usize>(a0: AArena<K>, a1: AArena<K>, f: &AffFunc) -> bool {
-    &&& same_shape(a0, a1)
-    &&& forall|i: usize| #![trigger a1[i]] a0.dom().contains(i) && !a0[i].isleaf ==> a1[i] == a0[i]
-    &&& forall|i: usize| #![trigger a1[i]] a0.dom().contains(i) && a0[i].isleaf ==> a1[i].value.state == a0[i].value.state
-            && a1[i].value.aff.ok() && a1[i].value.aff.mat.ncols() == a0[i].value.aff.mat.ncols() && a1[i].value.aff.mat.nrows() == f.mat.nrows()
-            && forall|x: V| x.len() == a0[i].value.aff.mat.ncols() ==> #[trigger] a1[i].value.aff.ap(x) =~= f.ap(a0[i].value.aff.ap(x))
-}
-
-// apply_func(a) is the special case of composition with an affine g:  h(x) == a(f(x)), undefined where f is
-pub proof fn lemma_apply_func_tree_fn<const K: usize>(a0: AArena<K>, a1: AArena<K>, h: Map<usize, nat>, f: &AffFunc, idx: usize, x: V, in_dim: usize)
-    requires all_leaves_composed(a0, a1, f), ranked_down(a0, h), kids_ok(a0), a0.dom().contains(idx), aff_shape_ok(a0, in_dim), x.len() == in_dim
-    ensures tree_fn(a1, h, idx, x) == (match tree_fn(a0, h, idx, x) { Some(y) => Some(f.ap(y)), None => None })
-    decreases h[idx]
-{
-    let nd = a0[idx];
-    if nd.isleaf {
-        assert(a1[idx].isleaf);
-    } else {
-        assert(a1[idx] == a0[idx]);
-        let l = decide(&nd.value.aff, x);
-        if 0 <= l < K && nd.children[l].is_some() && h[nd.children[l].unwrap()] < h[idx] {
-            lemma_apply_func_tree_fn(a0, a1, h, f, nd.children[l].unwrap(), x, in_dim);
-        }
-    }
-}
-
 impl<const K: usize> AffTree<K> {
 
 //@fn src/pwl/afftree.rs | impl<const K: usize> AffTree<K> | apply_func_at_node
